@@ -139,7 +139,17 @@ func init() {
 func drawHashLiteral(rt *rapid.T, depth int, extraKeys ...string) string {
 	n := rapid.IntRange(2, 8).Draw(rt, "npairs")
 	keys := []string{`"a"`, `"b"`, `"c"`, `1`, `"1"`, `1.0`, `2`, `"2"`, `2.5`, `"2.5"`, `(-1)`, `"-1"`, `"a" + "b"`, `1 + 1`, `"k" + string(1)`, `"Name"`, `10`, `"10"`, `9`, `"a\nb"`, `"a\\nb"`, `"t\tx"`, `"t\\tx"`, `((0 - 1.0) ** 0.5)`, `(- ((0 - 1.0) ** 0.5))`, `(0.0 - 0.0)`, `(- (0.0 * 1))`}
-	vals := []string{`1`, `2`, `"x"`, `"y"`, `true`, `[1, 2]`, `1.5`, `len("abc")`, `"v" + "w"`, `[3, 4]`, `[1, 2 + 1]`, `{"q": 1}`, `{"q": 2}`, `len("ab") + 1`, `(2 > 1) ? 1 : 0`, `- 1`}
+	vals := []string{`1`, `2`, `"x"`, `"y"`, `true`, `[1, 2]`, `1.5`, `len("abc")`, `"v" + "w"`, `[3, 4]`, `[1, 2 + 1]`, `{"q": 1}`, `{"q": 2}`, `len("ab") + 1`, `(2 > 1) ? 1 : 0`, `- 1`,
+		`1.0`, `2.0`, `10`, `10.0`, `"1"`, `"2"`, `id(1)`, `id(1.0)`, `[1.0, 2]`, `{"q": 1.0}`}
+	// now and then every pair holds the same value text (or one of two): the
+	// pairs then differ in their keys only
+	var shared []string
+	switch gen.Uniform(rt, "sharedvals", 6) {
+	case 0:
+		shared = []string{rapid.SampledFrom(vals).Draw(rt, "sharedval")}
+	case 1:
+		shared = [][]string{{`1`, `1.0`}, {`2`, `2.0`}, {`10`, `10.0`}, {`"1"`, `1`}, {`id(1)`, `id(1.0)`}}[gen.Uniform(rt, "sharedtwins", 5)]
+	}
 	for _, k := range extraKeys {
 		keys = append(keys, k, k)
 	}
@@ -158,6 +168,9 @@ func drawHashLiteral(rt *rapid.T, depth int, extraKeys ...string) string {
 			v = rapid.SampledFrom(vals).Draw(rt, "val")
 			if gen.Uniform(rt, "uniqueval", 2) == 0 {
 				v = fmt.Sprintf("%d", 100+i)
+			}
+			if len(shared) > 0 {
+				v = rapid.SampledFrom(shared).Draw(rt, "sharedpick")
 			}
 		}
 		parts = append(parts, k+": "+v)
